@@ -36,6 +36,25 @@ INTERVALS = [[0, 1], [0, 0], [0, 3], [7, 9], [7, 7], [3, 1], [0, 4], [1, 6], [0,
 ROOT = hd.node_from_priv(0x7A1B2C3D4E5F60718293A4B5C6D7E8F9000102030405060708090A0B0C0D0E0F, bytes.fromhex("c3" * 32))
 
 
+_PURP = {}
+
+
+def _purpose_node(purpose, coin=0):
+    if (purpose, coin) not in _PURP:
+        _PURP[(purpose, coin)] = hd.derive(ROOT, [H + purpose, H + coin])
+    return _PURP[(purpose, coin)]
+
+
+def _row_key_feats(a):
+    """reference only: private key of row 0 of each section for account a (mainnet)"""
+    return {"k%d" % p: hd.derive(_purpose_node(p), [H + a, 0, 0]).k.to_bytes(32, "big") for p in (44, 49, 84)}
+
+
+def _acct_text_feats(a):
+    """reference only: the account extended private keys as text"""
+    return {"x%d" % p: hd.xprv(hd.ckd_priv(_purpose_node(p), H + a), hd.version_for("prv", False, p)).encode() for p in (44, 49, 84)}
+
+
 def secret_of(src):
     if "xk" in src:
         kind, t, bip = src["xk"]
@@ -283,6 +302,29 @@ def run(ctx):
     cdims = dict(dims, account=[None] + ACCOUNTS, interval=[[0, 1], None] + INTERVALS[1:], file=[False, True])
     cvecs = ball(cdims, 2 if ctx.thorough else 1)
     ctx.product("cli-paranoia", [dict(v, k="cli") for v in cvecs], execute, chunk=1)
+    # corner classes of computed intermediates (vf/corners.py), driven by the account number below one imported master key:
+    # (a) the private key of the FIRST row of each section - every byte position 00 / ff, every first / last byte value;
+    # (b) an account extended PRIVATE key whose text contains a field name of the output schema ("pub", "prv")
+    from .. import corners
+    from ..core import HarnessError
+    si = 8
+    feats = corners.parallel_features(_row_key_feats, range(ctx.seed * 5000, ctx.seed * 5000 + 2600))
+    kept, st = corners.cover(iter(feats), {"k44": 32, "k49": 32, "k84": 32}, 10**6, pairs=False)
+    ctx.extra["intermediate_corner_classes_row_keys"] = st
+
+    def wcands():
+        a = ctx.seed * 5000
+        while True:
+            yield a, _acct_text_feats(a)
+            a += 1
+    kept2, st2 = corners.cover(wcands(), {}, 200000, positions=False, firstlast=False, pairs=False,
+                               extra=[corners.contains_words(["x44", "x49", "x84"], ["pub", "prv"])])
+    ctx.extra["intermediate_corner_classes_schema_words"] = st2
+    if st["covered"] != st["classes"] or st2["covered"] != st2["classes"]:
+        raise HarnessError("corner cover incomplete: %r %r" % (st, st2))
+    cc = [{"k": "api", "src": si, "testnet": False, "account": a, "interval": [0, 1]} for a, _ in kept + kept2]
+    cc += [{"k": "cli", "src": si, "testnet": False, "account": a, "interval": [0, 1], "file": False} for a, _ in kept2 + kept[::16]]
+    ctx.product("intermediate-corners", cc, execute, chunk=4)
     from ..bfs import bfs, eviction_probe
     bfs(ctx, "filter-call-histories", FilterHistories(), 3 if ctx.thorough else 2, chunk=1)
     eviction_probe(ctx, "filter-call-histories+account-revisits", FilterHistories(), lambda i: i, sizes=(1, 2, 3, 4, 5) + ((8, 9) if ctx.thorough else ()), chunk=1)
